@@ -484,6 +484,27 @@ def run(ctx: Ctx):
     rows_decided_per_instance(ctx)
     finished_selection_keeps_an_action(ctx)
     fjsp_file_operations_keep_their_machines(ctx)
+    generated_instances_can_be_completed(ctx)
+
+
+def generated_instances_can_be_completed(ctx: Ctx):
+    """C02.m an episode can only finish if every customer is servable from the depot at all: the generators assert that before
+    they return (C18.p, shared: feasibility assertions dominate every return; MTVRP: the ROUND trip 2 d < L -- the routes a
+    limit applies to are closed by the later sub-sampling -- and the horizon H >= 1 with H leaving time to return).  With the
+    one-way test a customer beyond L / 2 is never offered, only the depot is, and the episode idles there for ever."""
+    from . import C18
+    from ..core import Ctx as _Ctx
+    import contextlib, io
+    sub = _Ctx("C18", ctx.repo, "quick", 0)
+    with contextlib.redirect_stdout(io.StringIO()):
+        C18.feasibility_guards(sub)
+        C18.mtvrp_horizon_guard(sub)
+    got = [o for o in sub.obligations if o.rule == "C18.p"]
+    if len(got) < 3:
+        raise AnalysisError(f"C18.p obligations lost: {len(got)} < 3")
+    for o in got:
+        o.rule = "C02.m"
+        ctx.obligations.append(o)
 
 
 def fjsp_file_operations_keep_their_machines(ctx: Ctx):
